@@ -49,6 +49,12 @@ pub fn exchange(x: &Exchange) -> Ran {
         Wiring::Scripted { reader, .. } => reader.pos,
         _ => 0,
     };
+    // the bus is dropped before the log is read: whatever it does to the port on its way out (a farewell frame, a
+    // flush of something it held back, a read) is part of this exchange's record and judged like the rest
+    let r = match catch(std::panic::AssertUnwindSafe(move || drop(bus))) {
+        Ok(()) => r,
+        Err(p) => Err(crate::util::PanicInfo { msg: format!("while dropping the bus: {}", p.msg), loc: p.loc }),
+    };
     let s = st.borrow();
     Ran {
         result: r.map_err(|p| format!("panic {} at {}", p.msg, short_loc(&p.loc))),
